@@ -98,29 +98,29 @@ func runC05Sync(c *core.Ctx) *core.Violation {
 	var rdbViol *core.Violation
 	checkRDBKeys := func() *core.Violation {
 		// full phase: exactly the RDB's keys with their values
-	for _, r := range recs {
-		if r.Lua {
-			continue
-		}
-		got := e.Tgt.Get(int(r.DB), string(r.Key))
-		if got == nil {
-			return core.Violate("rdb-key-missing", fmt.Sprintf("rdbtype=%d", r.Type), "key %q of the RDB (db %d) is not on the target", clipS(r.Key), r.DB)
-		}
-		// keys also written by the command stream are judged by the stream oracle
-		touched := false
-		for _, w := range want {
-			for _, k := range keysOf(w.Args) {
-				if bytes.Equal(w.Args[k], r.Key) && w.DB == int(r.DB) {
-					touched = true
+		for _, r := range recs {
+			if r.Lua {
+				continue
+			}
+			got := e.Tgt.Get(int(r.DB), string(r.Key))
+			if got == nil {
+				return core.Violate("rdb-key-missing", fmt.Sprintf("rdbtype=%d", r.Type), "key %q of the RDB (db %d) is not on the target", clipS(r.Key), r.DB)
+			}
+			// keys also written by the command stream are judged by the stream oracle
+			touched := false
+			for _, w := range want {
+				for _, k := range keysOf(w.Args) {
+					if bytes.Equal(w.Args[k], r.Key) && w.DB == int(r.DB) {
+						touched = true
+					}
+				}
+			}
+			if !touched {
+				if ok, why := rc.Equal(got.Val, r.Val); !ok {
+					return core.Violate("rdb-key-differs", fmt.Sprintf("rdbtype=%d", r.Type), "key %q: %s", clipS(r.Key), why)
 				}
 			}
 		}
-		if !touched {
-			if ok, why := rc.Equal(got.Val, r.Val); !ok {
-				return core.Violate("rdb-key-differs", fmt.Sprintf("rdbtype=%d", r.Type), "key %q: %s", clipS(r.Key), why)
-			}
-		}
-	}
 		return nil
 	}
 	s := simrt.Run(c.TT, t, cfg, func(s *simrt.Sim) {
